@@ -60,9 +60,13 @@ type Interp struct {
 	sol       *solver.Session
 	solFresh  bool // solver session has been reset for this path
 	pc        []*term.Term
+	pcSet     map[uint32]bool
+	doms      map[string]*domain
+	multiVars map[string]bool
 	asserted  int
 	model     map[string]uint64
-	memo      map[uint32]uint64
+	ev        *term.Evaluator
+	dev       *term.Evaluator
 	prefix    []Decision
 	pos       int
 	decisions []Decision
@@ -82,6 +86,8 @@ type Interp struct {
 	initDepth      int
 	summaryDepth   int
 	sum            *sumState
+	sumCache       map[*ssa.Function]*sumEntry
+	sumInst        map[sumKey]*term.Term
 	callStack      []*ssa.Function
 
 	sched *scheduler
